@@ -358,6 +358,9 @@ def f6(ctx):
                     ctx.violate(key, p, 'cancel result not examined')
                     continue
             else:
+                if not has(lb, 'fs_waiting', 'F'):
+                    ctx.violate(key, p, 'drop returns on a path that never examined whether the future is registered: a pending future would leave its address in the wait list (the next peer writes into freed memory and its message is lost)')
+                    continue
                 if canc or waits:
                     ctx.violate(key, p, 'a never-registered future cancels / waits')
                 moved = False
